@@ -158,6 +158,11 @@ class Sym:
         self._busy_vars = set()
         self.path_blocks = None
         self.path_order = {}
+        self.sym_box = {"L": (0, (1 << 63) - 1)}
+        self.b2i = {}        # symbol name -> (op, Poly a, Poly b): the comparison whose truth the 0/1 symbol carries
+        self.divrem = {}     # symbol name -> ("div"|"rem", operand Poly, k)
+        self.phis = {}       # symbol name -> [alternative Polys]
+        self.sym_terms = {}  # symbol name -> term it stands for (opaque symbols)
 
     # ------------------------------------------------------------------ names of input selections
     def bv_name(self, v):
@@ -264,11 +269,110 @@ class Sym:
         except TypeError:
             key = None
         p = self._poly_uncached(t)
-        if key is not None:
+        if key is not None and not self._busy_vars:
+            # results computed while unfolding a loop-carried local mention the `loopvar` marker: never cache them
             self._poly[key] = p
         return p
 
     def _poly_uncached(self, t):
+        p = self._poly_uncached2(t)
+        if p is not None:
+            for sname in p.syms():
+                if sname not in self.sym_box:
+                    self.sym_box[sname] = self.guess_box(sname, t if p == Poly.sym(sname) else None)
+                if p == Poly.sym(sname) and sname not in self.sym_terms:
+                    self.sym_terms[sname] = t
+        return p
+
+    def site_block(self, site):
+        """terminator of the call site of a term in *this* body, or None for inlined closure terms"""
+        if isinstance(site, int) and 0 <= site < len(self.an.body.blocks):
+            t = self.an.body.blocks[site]["t"]
+            if t.get("k") == "call":
+                return t
+        return None
+
+    def int_range(self, ty):
+        if ty is None or ty.get("k") != "int":
+            if ty is not None and ty.get("k") == "bool":
+                return (0, 1)
+            if ty is not None and ty.get("k") == "char":
+                return (0, 0x10FFFF)
+            return (None, None)
+        w = ty["w"]
+        return (-(1 << (w - 1)), (1 << (w - 1)) - 1) if ty["s"] else (0, (1 << w) - 1)
+
+    def guess_box(self, name, term):
+        """value range of a symbol from its name / the type of the term it stands for"""
+        import re
+        m = re.match(r"^(s\()?(u8|le16|be16|le32|be32|le64|be64|le128|be128)@[^\[\]]*(\[(\d+)\.\.(\d+)\])?\)?$", name)
+        if m:
+            width = {"u8": 8}.get(m.group(2)) or int(m.group(2)[2:])
+            if m.group(3):
+                width = int(m.group(5)) - int(m.group(4))
+            if m.group(1):
+                return (-(1 << (width - 1)), (1 << (width - 1)) - 1)
+            return (0, (1 << width) - 1)
+        if name.startswith("len("):
+            import re as _re
+            m = _re.match(r"^len\((alpha_g_[\w:]+)\((.*)\)\)$", name)
+            if m and m.group(1) in self.prog.bodies:
+                # length of a Vec field returned by an accessor: the field's invariant (constructor census)
+                from .guards import accessor_field
+                from . import invariants
+                fi = accessor_field(self.prog, m.group(1))
+                b = self.prog.bodies[m.group(1)]
+                if fi is not None and b.argc == 1:
+                    ty = b.locals[1]["ty"]
+                    while ty.get("k") == "ref":
+                        ty = ty["t"]
+                    if ty.get("k") == "adt":
+                        lb = invariants.len_box(self.prog, ty["p"], fi)
+                        if lb is not None:
+                            return (lb[0] if lb[0] is not None else 0, lb[1] if lb[1] is not None else (1 << 63) - 1)
+            return (0, (1 << 63) - 1)
+        if term is not None:
+            tt = term
+            while tt[0] in ("ref", "deref"):
+                tt = tt[1]
+            if tt[0] == "field":
+                bty = self.type_of(tt[1])
+                if bty is not None and bty.get("k") == "adt" and bty["p"] in self.prog.adts:
+                    from . import invariants
+                    fb = invariants.field_box(self.prog, bty["p"], tt[2])
+                    if fb is not None and (fb[0] is not None or fb[1] is not None):
+                        return fb
+            ty = self.type_of(term)
+            if ty is None and term[0] == "call" and isinstance(term[3], int) and term[3] >= 0:
+                blk = self.an.body.blocks[term[3]]["t"]
+                d = blk.get("dest")
+                if d is not None and not d["pr"]:
+                    ty = self.an.body.locals[d["l"]]["ty"]
+            if ty is None and term[0] == "bin":
+                ty = self.bin_type(term)
+            if ty is not None:
+                return self.int_range(ty)
+        return (None, None)
+
+    def bin_type(self, t):
+        """type of an integer expression term (best effort)"""
+        t = strip(t)
+        if t[0] == "const":
+            w = {"u8": (8, False), "u16": (16, False), "u32": (32, False), "u64": (64, False), "u128": (128, False), "usize": (64, False),
+                 "i8": (8, True), "i16": (16, True), "i32": (32, True), "i64": (64, True), "i128": (128, True), "isize": (64, True)}.get(t[2])
+            if w:
+                return {"k": "int", "w": w[0], "s": w[1]}
+            return None
+        if t[0] == "bin":
+            return self.bin_type(t[2]) or self.bin_type(t[3])
+        if t[0] == "cast":
+            w = {"u8": (8, False), "u16": (16, False), "u32": (32, False), "u64": (64, False), "u128": (128, False), "usize": (64, False),
+                 "i8": (8, True), "i16": (16, True), "i32": (32, True), "i64": (64, True), "i128": (128, True), "isize": (64, True)}.get(t[3])
+            if w:
+                return {"k": "int", "w": w[0], "s": w[1]}
+        return self.type_of(t)
+
+    def _poly_uncached2(self, t):
         k = t[0]
         if k == "const":
             if t[2] in ("f64", "f32"):
@@ -339,7 +443,22 @@ class Sym:
                 if a.is_const() and b.is_const() and b.const_value() != 0 and a.const_value() >= 0:
                     q, r = divmod(int(a.const_value()), int(b.const_value()))
                     return Poly.const(q if op == "Div" else r)
-                return Poly.sym("%s(%s,%s)" % ("div" if op == "Div" else "rem", a, b))
+                nm = "%s(%s,%s)" % ("div" if op == "Div" else "rem", a, b)
+                if b.is_const() and b.const_value() > 0:
+                    kk = int(b.const_value())
+                    self.divrem[nm] = ("div" if op == "Div" else "rem", a, kk)
+                    from .prover import poly_interval
+                    alo, ahi = poly_interval(a, {s_: self.sym_box.get(s_, (None, None)) for s_ in a.syms()})
+                    if op == "Rem":
+                        if alo is not None and alo >= 0:
+                            self.sym_box[nm] = (0, kk - 1 if ahi is None else min(kk - 1, int(ahi)))
+                        else:
+                            self.sym_box[nm] = (-(kk - 1), kk - 1)
+                    else:
+                        lo_ = None if alo is None else (int(alo) // kk if alo >= 0 else -((-int(alo)) // kk) - 1)
+                        hi_ = None if ahi is None else (int(ahi) // kk if ahi >= 0 else -((-int(ahi)) // kk))
+                        self.sym_box[nm] = (lo_, hi_)
+                return Poly.sym(nm)
             if op in ("BitAnd", "BitOr", "BitXor", "Shl", "Shr"):
                 a, b = self.poly(t[2]), self.poly(t[3])
                 if a is None or b is None:
@@ -348,6 +467,15 @@ class Sym:
             return None
         if k == "cast":
             if t[1] in ("IntToInt",):
+                inner = strip(t[2])
+                c = as_cmp(inner, True)
+                if c is not None and not self.is_float_cmp(inner):
+                    pa, pb = self.poly(c[1]), self.poly(c[2])
+                    if pa is not None and pb is not None:
+                        nm = "b2i(%s)" % cmp_to_rel(c[0], pa, pb)[1]
+                        self.sym_box[nm] = (0, 1)
+                        self.b2i[nm] = (c[0], pa, pb)
+                        return Poly.sym(nm)
                 return self.poly(t[2])
             return None
         if k == "call":
@@ -358,8 +486,32 @@ class Sym:
                 inner = strip(t[2][0])
                 if inner[0] == "call" and short(inner[1]) in ("TryInto::try_into", "TryFrom::try_from"):
                     return self.poly(inner[2][0])
+            if s == "Iterator::sum" and len(t[2]) == 1:
+                nm = self.name(t)
+                src = unmut(t[2][0])
+                if src[0] == "call" and short(src[1]) == "Iterator::map" and len(src[2]) == 2:
+                    n = self.iter_len(src[2][0])
+                    ci = closure_info(self.prog, self.an, strip(src[2][1]))
+                    if n is not None and n.is_const() and ci:
+                        cb = ci[0]
+                        rets = closure_ret(self.prog, cb)
+                        ety = cb.locals[2]["ty"] if cb.argc >= 2 else None
+                        while ety is not None and ety.get("k") == "ref":
+                            ety = ety["t"]
+                        rng = self.int_range(ety)
+                        widened = len(rets) == 1 and strip(rets[0]) in (("param", 2),) or (len(rets) == 1 and strip(rets[0])[0] == "call" and short(strip(rets[0])[1]) in ("From::from", "Into::into") or (len(rets) == 1 and "impl std::convert::From<" in str(strip(rets[0])[1:2])))
+                        if rng[0] is not None and widened:
+                            k_ = int(n.const_value())
+                            self.sym_box[nm] = (k_ * rng[0], k_ * rng[1])
+                return Poly.sym(nm)
+            if s.endswith("::leading_zeros") and len(t[2]) == 1:
+                nm = self.name(t)
+                m_ = __import__("re").search(r"impl u(\d+)>::leading_zeros", t[1])
+                if m_:
+                    self.sym_box[nm] = (0, int(m_.group(1)))
+                return Poly.sym(nm)
             if s == "mem::size_of" and not t[2]:
-                blk = self.an.body.blocks[t[3]]["t"]
+                blk = self.site_block(t[3]) or {}
                 ga = blk.get("gargs") or []
                 if len(ga) == 1 and ga[0]["k"] in ("int", "float") :
                     return Poly.const(ga[0]["w"] // 8)
@@ -368,7 +520,13 @@ class Sym:
             if s.endswith("::saturating_sub") and len(t[2]) == 2:
                 a, b = self.poly(t[2][0]), self.poly(t[2][1])
                 if a is not None and b is not None:
-                    return Poly.sym("satsub(%s,%s)" % (a, b))
+                    nm = "satsub(%s,%s)" % (a, b)
+                    from .prover import poly_interval
+                    alo, ahi = poly_interval(a, {s_: self.sym_box.get(s_, (None, None)) for s_ in a.syms()})
+                    blo, bhi = poly_interval(b, {s_: self.sym_box.get(s_, (None, None)) for s_ in b.syms()})
+                    hi_ = None if ahi is None else (int(ahi) - (int(blo) if blo is not None and blo > 0 else 0))
+                    self.sym_box[nm] = (0, None if hi_ is None else max(0, hi_))
+                    return Poly.sym(nm)
             if s.endswith("::wrapping_sub") and len(t[2]) == 2:
                 a, b = self.poly(t[2][0]), self.poly(t[2][1])
                 if a is not None and b is not None:
@@ -390,7 +548,9 @@ class Sym:
                     rec = [p for p in ps if any("loopvar" in sname for sname in p.syms())]
                     if rec:
                         return Poly.sym("loop(%s)" % "|".join(sorted(str(p) for p in ps if p not in rec)))
-                    return Poly.sym("phi(%s)" % "|".join(sorted(str(p) for p in ps)))
+                    nm = "phi(%s)" % "|".join(sorted(str(p) for p in ps))
+                    self.phis[nm] = ps
+                    return Poly.sym(nm)
             return None
         if k in ("field", "param", "index", "try", "downcast"):
             return Poly.sym(self.name(t))
@@ -473,6 +633,25 @@ class Sym:
                     return self.lin_poly(ln)
             if s in ("Deref::deref", "Vec::<T, A>::as_slice", "AsRef::as_ref"):
                 return self.seq_len(t[2][0])
+            if s in ("Index::index", "IndexMut::index_mut") and len(t[2]) == 2:
+                rng = strip(t[2][1])
+                if rng[0] == "aggr" and rng[1].startswith("adt:std::ops::Range"):
+                    ops = [self.poly(o) for o in rng[2]]
+                    kind = rng[1].split("::")[-1]
+                    if all(o is not None for o in ops):
+                        if kind == "Range":
+                            return ops[1] - ops[0]
+                        if kind == "RangeTo":
+                            return ops[0]
+                        base = self.seq_len(t[2][0])
+                        if kind == "RangeFull":
+                            return base
+                        if kind == "RangeFrom" and base is not None:
+                            return base - ops[0]
+        r = self.ev.region(t)
+        if r is not None:
+            ln = r.length if r.length is not None else (r.end()[0] - r.start[0], r.end()[1] - r.start[1])
+            return self.lin_poly(ln)
         return None
 
     def lin_poly(self, ln):
@@ -495,7 +674,21 @@ class Sym:
                 self.needs_div = getattr(self, "needs_div", set()) | {(str(p), int(k.const_value()))}
                 return p.scale(Fraction(1, int(k.const_value())))
         if s in ("<impl [T]>::iter", "IntoIterator::into_iter"):
-            return self.seq_len(t[2][0])
+            inner = unmut(t[2][0])
+            r = self.seq_len(t[2][0])
+            if r is not None:
+                return r
+            if t[2][0][0] == "mut" or (t[2][0][0] in ("ref", "deref") and unmut(t[2][0]) is not None):
+                src = t[2][0]
+                while src[0] in ("ref", "deref"):
+                    src = src[1]
+                if src[0] == "mut":
+                    nm = "len(%s)" % self.mut_name(src)
+                    self.sym_box.setdefault(nm, (0, (1 << 63) - 1))
+                    return Poly.sym(nm)
+            return None
+        if s in ("Iterator::rev", "Iterator::copied", "Iterator::cloned", "Iterator::enumerate"):
+            return self.iter_len(t[2][0])
         return None
 
     # ------------------------------------------------------------------ names
@@ -626,7 +819,7 @@ class Sym:
     def call_sig(self, t):
         """callee name, with the target type for conversion traits"""
         s = short(t[1])
-        if s in ("TryInto::try_into", "TryFrom::try_from", "Into::into", "From::from") and t[1] not in self.prog.bodies:
+        if s in ("TryInto::try_into", "TryFrom::try_from", "Into::into", "From::from") and t[1] not in self.prog.bodies and self.site_block(t[3]) is not None:
             blk = self.an.body.blocks[t[3]]["t"]
             r = blk.get("resolved") or ""
             if r in self.prog.bodies:
@@ -676,7 +869,7 @@ class Sym:
                 cont = (rel == "in" and vs == [0]) or (rel == "notin" and vs == [1])
                 brk = (rel == "in" and vs == [1]) or (rel == "notin" and vs == [0])
                 if cont or brk:
-                    return [("ok" if cont else "err", self.name(x))]
+                    return [("ok" if cont else "err", self.name(x), x)]
             tyname = self.enum_of(ds[1])
             if tyname and (tyname.startswith("std::option::Option") or tyname.startswith("core::option::Option")):
                 some = (rel == "in" and vs == [1]) or (rel == "notin" and vs == [0])
@@ -687,7 +880,7 @@ class Sym:
                 ok = (rel == "in" and vs == [0]) or (rel == "notin" and vs == [1])
                 er = (rel == "in" and vs == [1]) or (rel == "notin" and vs == [0])
                 if ok or er:
-                    return [("ok" if ok else "err", self.name(inner))]
+                    return [("ok" if ok else "err", self.name(inner), inner)]
             return [("variant", self.name(inner), rel, tuple(self.variant_names(tyname, vs)))]
         tr = truth_of(rel, vals) if is_bool else None
         if tr is None:
@@ -808,7 +1001,7 @@ class Sym:
         d = strip(d)
         if d[0] == "bin" and len(d) == 5:
             return True
-        if d[0] == "call" and short(d[1]) in ("PartialOrd::lt", "PartialOrd::le", "PartialOrd::gt", "PartialOrd::ge", "PartialEq::eq", "PartialEq::ne"):
+        if d[0] == "call" and short(d[1]) in ("PartialOrd::lt", "PartialOrd::le", "PartialOrd::gt", "PartialOrd::ge", "PartialEq::eq", "PartialEq::ne") and self.site_block(d[3]) is not None:
             blk = self.an.body.blocks[d[3]]["t"]
             for g in blk.get("gargs") or []:
                 gs = pp.ty(g)
@@ -868,9 +1061,11 @@ class Sym:
                 ty = ty["t"]
             return ty
         if t[0] == "call":
+            if not isinstance(t[3], int) or t[3] < 0:
+                return None
             blk = self.an.body.blocks[t[3]]["t"]
-            d = blk["dest"]
-            if not d["pr"]:
+            d = blk.get("dest")
+            if d is not None and not d["pr"]:
                 return unref(self.an.body.locals[d["l"]]["ty"])
             return None
         if t[0] == "param":
@@ -1067,6 +1262,8 @@ def atom_key(a):
     """hashable/printable key of an atom (drops the Poly object)"""
     if a[0] == "rel":
         return ("rel", a[1])
+    if a[0] in ("ok", "err") and len(a) > 2:
+        return (a[0], a[1])
     return a
 
 
